@@ -27,7 +27,7 @@ ASSUMPTIONS = [
 
 def budgets(tier):
     if tier == "quick":
-        return {"examples": 400, "max_s": 80, "shrink_s": 20, "shards": 1}
+        return {"examples": 280, "max_s": 80, "shrink_s": 20, "shards": 1}
     return {"examples": 2000, "max_s": 700, "shrink_s": 90, "shards": 16}
 
 
